@@ -151,19 +151,28 @@ func (c *Collection) add(key string, exp Exp, val []byte, isJSON bool) (added bo
 	var casOut CAS
 	err = c.withNewCas(func(txn *sql.Tx, newCas CAS) (e *event, err error) {
 		exp = absoluteExpiry(exp)
-		var revSeqNo uint64 = 1
+		// A tombstone being resurrected keeps counting its revisions:
+		var revSeqNo uint64
+		row := txn.QueryRow(`SELECT revSeqNo FROM documents WHERE collection=?1 AND key=?2`, c.id, key)
+		if err = scan(row, &revSeqNo); err != nil && err != sql.ErrNoRows {
+			return nil, remapKeyError(err, key)
+		}
+		revSeqNo++
 		result, err := txn.Exec(
 			`INSERT INTO documents (collection,key,value,cas,exp,isJSON, revSeqNo) VALUES (?1,?2,?3,?4,?5,?6,?7)
 				ON CONFLICT(collection,key) DO
-					UPDATE SET value=?3, xattrs=null, cas=?4, exp=?5, isJSON=?6
+					UPDATE SET value=?3, xattrs=null, cas=?4, exp=?5, isJSON=?6, revSeqNo=?7, tombstone=0
 					WHERE tombstone != 0`,
-			c.id, key, val, newCas, exp, isJSON, 1, revSeqNo)
+			c.id, key, val, newCas, exp, isJSON, revSeqNo)
 		if err != nil {
 			return
 		}
 		casOut = newCas
 		n, _ := result.RowsAffected()
 		added = (n > 0)
+		if !added {
+			return nil, nil // nothing was written, so there is no event to post
+		}
 
 		e = &event{
 			key:      key,
